@@ -69,6 +69,16 @@ var sessCorpus = []struct {
 	{"i:0:e:r", "c0,o0,s0,pi0g,pi0t,pm0n,pp0n,pi0r,g,h,k0"},
 	{"i:0:c:e,i:1:e:r", "c0,o0,c1,o1,s0,s1,pi1g,pi0t,pi1r,g,h,k1,pi0e,g,h,k0"},
 	{"p:3", "c0,o0,s0,pp3e,g,h,x0,k0,pp3e"},
+	// the stanza attributes are the UNQUALIFIED id / type: a response to somebody else that merely
+	// carries a foreign x:id (or a namespace declaration xmlns:id) with the value of a pending id
+	// goes to the handler; a get with a foreign x:type="result" is no response; the real one is
+	// found whatever surrounds its attributes
+	{"i:0:e:r", "c0,o0,s0,pi7r+qi0b,pi7e+ni0b,pi7r+qi0a,pi0g+qtrb,pi0t+ntea,pi0r+qi7bqtgb,g,h,k0"},
+	{"m:1:c:e,i:0:e:r", "c0,o0,c1,o1,s0,s1,pm0e+qi1b,pi1r+ni0b,pm1n+qteb,pm1e+qi0bni0a,g,h,k0,pi0e+qtgbni1b,g,h,k1"},
+	{"p:2:e:r", "c0,o0,s0,pp7e+qi2b,pp2n+qteb,pp2e+nt" + "ga,g,h,k0"},
+	// … and the same for the request's own start element
+	{"i:0:e:r:q", "c0,o0,s0,pi9r,pi0r,g,h,k0"},
+	{"m:3:c:r:q,i:9:e:r", "c0,o0,c1,o1,s0,s1,pm9e,pm3e,g,h,k0,pi9r,g,h,k1"},
 }
 
 // every stanza kind x type (result, error; normal, get, set) x id (two requester ids and an
@@ -83,6 +93,17 @@ var peerAlphabet = func() []string {
 		for _, t := range types {
 			for _, id := range []int{0, 1, 9} {
 				out = append(out, fmt.Sprintf("p%c%d%c", k, id, t), fmt.Sprintf("p%c%d%cS", k, id, t))
+				// decoy attributes: a foreign / xmlns attribute named id with another requester's
+				// id, or named type with the opposite class of type, in front of / behind the real ones
+				other := map[int]int{0: 1, 1: 0, 9: 0}[id]
+				flip := map[rune]byte{'r': 'g', 'e': 't', 'n': 'r', 'g': 'r', 't': 'e'}[t]
+				for _, form := range "qn" {
+					for _, pl := range "ba" {
+						out = append(out, fmt.Sprintf("p%c%d%c+%ci%d%c", k, id, t, form, other, pl),
+							fmt.Sprintf("p%c%d%c+%ct%c%c", k, id, t, form, flip, pl))
+					}
+				}
+				out = append(out, fmt.Sprintf("p%c%d%c+qi%dbqt%cb", k, id, t, other, flip))
 			}
 		}
 	}
@@ -98,6 +119,9 @@ func parseReqs(s string) []reqSpec {
 		p := strings.Split(f, ":")
 		id, _ := strconv.Atoi(p[1])
 		q := reqSpec{kind: p[0][0], id: id, ns: 'e', api: 'r'}
+		if len(p) > 4 && p[4] != "" {
+			q.dec = p[4][0]
+		}
 		if len(p) > 2 && p[2] != "" {
 			q.ns = p[2][0]
 		}
@@ -151,7 +175,11 @@ func randReqs(rnd *common.Rand) []reqSpec {
 		if rnd.Chance(1, 4) {
 			id = rnd.Intn(2)
 		}
-		out = append(out, reqSpec{kind: "iiimp"[rnd.Intn(5)], id: id, ns: "eeccs"[rnd.Intn(5)], api: "re"[rnd.Intn(2)]})
+		q := reqSpec{kind: "iiimp"[rnd.Intn(5)], id: id, ns: "eeccs"[rnd.Intn(5)], api: "re"[rnd.Intn(2)]}
+		if q.api == 'r' && rnd.Chance(1, 5) {
+			q.dec = 'q'
+		}
+		out = append(out, q)
 	}
 	return out
 }
@@ -165,7 +193,11 @@ func Run(r *common.Run) error {
 		}
 		for _, l := range lines {
 			f := strings.Fields(l)
-			if len(f) < 4 || f[0] != "C06" {
+			if len(f) < 3 || f[0] != "C06" || (len(f) < 4 && f[1] != "exp") {
+				continue
+			}
+			if f[1] == "exp" && len(f) >= 3 {
+				runExpect(r, strings.Split(f[2], ","), "replay")
 				continue
 			}
 			switch f[1] {
@@ -173,6 +205,8 @@ func Run(r *common.Run) error {
 				runSess(r, parseReqs(f[2]), replayable(f[3]), "replay")
 			case "rcpt":
 				runRcpt(r, parseIDs(f[2]), replayable(f[3]), "replay")
+			case "wrap":
+				runWrap(r, f[2][0], f[3], "replay")
 			}
 		}
 		return nil
@@ -198,6 +232,10 @@ func Run(r *common.Run) error {
 		r.Notes = append(r.Notes, "race-detector run: concurrent scenarios and corpora only")
 		return nil
 	}
+	// the helpers that own the response they wait for, over every reply shape
+	runWraps(r)
+	// the listener's table of expected streams
+	runExpects(r)
 	// schedules generated from the Lean LTS by the driver
 	nGen := 0
 	if bin := findDriver(r.Dir); bin != "" {
